@@ -717,6 +717,10 @@ func (db *Database) SearchWithNLP(query string, options SearchOptions) []SearchR
 		return db.SearchWithFuzzy(query, options)
 	}
 
+	if options.Limit <= 0 {
+		options.Limit = constants.DefaultSearchLimit
+	}
+
 	// Use shared TF-IDF searcher if available
 	if db.tfidf != nil && db.cmdIndex != nil {
 		tfidfResults := db.tfidf.Search(query, options.Limit*2) // Get more results for better selection
